@@ -505,6 +505,9 @@ impl MediaStreamTrack for SampleStreamTrack {
                 return Err(MediaError::EndOfStream);
             }
 
+            // Register for wake-ups before looking at the state: the last source
+            // closes with notify_waiters(), which only reaches waiters that exist.
+            let notified = self.notify.notified();
             {
                 let _pop_guard = self.pop_lock.lock();
                 // Read `closed` BEFORE popping: if it was already set, every
@@ -521,11 +524,7 @@ impl MediaStreamTrack for SampleStreamTrack {
                 }
             }
 
-            self.notify.notified().await;
-            if self.source_closed.load(Ordering::Acquire) && self.queue.is_empty() {
-                self.ended.store(true, Ordering::SeqCst);
-                return Err(MediaError::EndOfStream);
-            }
+            notified.await;
         }
     }
 
